@@ -1302,6 +1302,7 @@ func checkC09(c *Ctx, r *Report, tier string) {
 	round5(c, r, "C09")
 	round6(c, r, "C09")
 	round7(c, r, "C09")
+	round8(c, r, "C09")
 	_ = tier
 	r.Rule("C09.R5", "each node is asked once: the worker opens the node's result stream at one site, outside any loop", 1)
 	streamOpenedOnce(c, r, "C09.R5")
